@@ -206,17 +206,17 @@ func c05Catalog() []progInput {
 		out = append(out, progInput{Unlock: h(u), Lock: h(l), Flags: f, Ctx: defaultCtx(), Src: "catalog"})
 	}
 	for _, f := range []uint32{0, g} {
-		add("1 TOALTSTACK RETURN", "FROMALTSTACK", f)               // alt stack is per script
-		add("1 TOALTSTACK", "FROMALTSTACK", f)                      //
-		add("0 IF VERIF ENDIF 1 RETURN 0x4c", "", f)                // unexecuted VERIF, junk after top-level RETURN
-		add("", "0 IF VERIF ENDIF 1 RETURN 0x4c", f)                //
-		add("", "0 IF VERNOTIF ELSE 1 ENDIF", f)                    //
-		add("", "1 RETURN 0x05", f)                                 // truncated push hidden by RETURN
-		add("", "1 IF RETURN ENDIF 0x05", f)                        // not hidden
-		add("", "1 IF RETURN ENDIF 1 RETURN 0x05", f)               //
-		add("", "1 IF 1 ELSE 0 ELSE 1 ENDIF", f)                    // second ELSE
-		add("", "0 IF 0 ELSE 1 ELSE 0 ENDIF", f)                    //
-		add("0x03 0x010203 0x09 0x010000000000000001", "SPLIT", f)  // position 2^64+1
+		add("1 TOALTSTACK RETURN", "FROMALTSTACK", f)              // alt stack is per script
+		add("1 TOALTSTACK", "FROMALTSTACK", f)                     //
+		add("0 IF VERIF ENDIF 1 RETURN 0x4c", "", f)               // unexecuted VERIF, junk after top-level RETURN
+		add("", "0 IF VERIF ENDIF 1 RETURN 0x4c", f)               //
+		add("", "0 IF VERNOTIF ELSE 1 ENDIF", f)                   //
+		add("", "1 RETURN 0x05", f)                                // truncated push hidden by RETURN
+		add("", "1 IF RETURN ENDIF 0x05", f)                       // not hidden
+		add("", "1 IF RETURN ENDIF 1 RETURN 0x05", f)              //
+		add("", "1 IF 1 ELSE 0 ELSE 1 ENDIF", f)                   // second ELSE
+		add("", "0 IF 0 ELSE 1 ELSE 0 ENDIF", f)                   //
+		add("0x03 0x010203 0x09 0x010000000000000001", "SPLIT", f) // position 2^64+1
 		add("0x03 0x010203 0x09 0x0100000000000000 0x01", "SPLIT 1", f)
 		add("1 2 3 0x09 0x010000000000000001", "PICK", f)           //
 		add("1 2 3 0x09 0x010000000000000001", "ROLL", f)           //
@@ -237,9 +237,9 @@ func c05Catalog() []progInput {
 		add("1 0 IF 2DIV ENDIF", "", f)                             //
 		add("1", "RESERVED", f)                                     //
 		add("1 0 IF RESERVED VER RESERVED1 RESERVED2 0xba ENDIF", "", f)
-		add("", "DEPTH 0 EQUAL", f)                                 //
+		add("", "DEPTH 0 EQUAL", f) //
 		add("0x4c 0x00", "0 EQUAL", f|uint32(scriptflag.VerifyMinimalData))
-		add("0 0x4c 0x00", "EQUAL", f)                              //
+		add("0 0x4c 0x00", "EQUAL", f) //
 		add("1 2", "1", f|uint32(scriptflag.VerifyCleanStack|scriptflag.Bip16))
 		add("1", "NOP1", f|uint32(scriptflag.DiscourageUpgradableNops))
 		add("1 0 IF NOP1 ENDIF", "", f|uint32(scriptflag.DiscourageUpgradableNops))
@@ -283,7 +283,7 @@ func c05Limits() []progInput {
 	}
 	// operation count: 499 / 500 / 501 / 502 non-push opcodes
 	for _, k := range []int{498, 499, 500, 501} {
-		add([]byte{0x51}, rep([]byte{0x61}, k), "op-count")                                     // k NOPs
+		add([]byte{0x51}, rep([]byte{0x61}, k), "op-count")                                                // k NOPs
 		add([]byte{0x51}, append([]byte{0x00, 0x63}, append(rep([]byte{0x61}, k-2), 0x68)...), "op-count") // counted although skipped: IF + NOPs + ENDIF
 	}
 	// stack depth: 999 / 1000 / 1001 items, split between data and alt stack
